@@ -392,6 +392,7 @@ func filesMode(tier, shard, of int) int {
 		{"@{exec_path} += @{lib}/x /opt/x", func() aa.Rule {
 			return &aa.Variable{Name: "exec_path", Define: false, Values: []string{"@{lib}/x", "/opt/x"}}
 		}},
+		{"#", func() aa.Rule { return &aa.Comment{Base: aa.Base{IsLineRule: true, Comment: ""}} }},
 		{"@{gxx} = /usr/include/c++/ /opt/k=v", func() aa.Rule {
 			return &aa.Variable{Name: "gxx", Define: true, Values: []string{"/usr/include/c++/", "/opt/k=v"}}
 		}},
